@@ -1,6 +1,7 @@
 """Contracts on the top-level generation functions (stubs_generator/_generate_stubs.py): text-level clauses stated
 with an independent oracle — a parser of the stub language (specs/sdsparse.py) and the declarations of the API
 model — instead of a transcription of the emitters. They are evaluated natively on real API models (bounded)."""
+from pyvc import FIXTURES, HOME  # noqa: F401
 from pyvc.api import clause, contract, implies, old
 from specs import sdsparse
 
@@ -268,7 +269,7 @@ def _call_cases(seed, tier):
     for path, style in (QUICK if tier == "quick" else PKGS):
         api = api_for(path, style)
         mods = [m for m in api.modules.values()]
-        if len(mods) > 12 and tier == "quick" and not path.startswith("/verif/fixtures"):
+        if len(mods) > 12 and tier == "quick" and not path.startswith(FIXTURES):
             mods = mods[:12]
         for conv in (False, True):
             for i, m1 in enumerate(mods):
